@@ -23,6 +23,8 @@ def run(ck, ctx):
     ck.rule("R10.6", "acceptance agreement: WalEntry::decode (and any sibling decoder) rejects a frame only for truncation "
                      "(input length tests, checked_add overflow) or checksum mismatch - never for a size/shape limit the writer does "
                      "not enforce, which would end recovery at an entry that was appended and fsynced intact")
+    from . import bounds as _bounds
+    ck.rule("R10.7", _bounds.TEXT % "the WAL, segment and checkpoint decoders")
     ck.nd("bit-identity of payloads is delegated to CRC32 (detection probability not analysed)")
     ck.nd("behaviour for every corruption offset / torn length at run time")
     for cfg in ctx.configs:
@@ -34,6 +36,7 @@ def run(ck, ctx):
         _r104(ck, prog, cfg)
         file_loop_rule(ck, prog, cfg, "R10.3")
         r106(ck, prog, cfg, "R10.6")
+        _bounds.rule(ck, prog, cfg, "R10.7", ("src/streaming/wal.rs",), "a WAL file torn at that offset", floor=6, tag=_tag(cfg))
 
 
 def _input_derived(fn, operand, depth=0):
